@@ -428,6 +428,6 @@ def run(ctx):
                   "convex hull / polygon collision are hand models tied by correspondence, the hull theorem is by complete enumeration "
                   "of the stated finite domains, the separating-axis theorem is for all inputs; Fortran twins are tied by correspondence",
                   search=search,
-                  unproved=["hull correctness for arbitrary point sets (proved on the finite lattice domains only)",
+                  unproved=["hull correctness for arbitrary point sets (proved for every finite sequence on the 4x4 lattice)",
                             "clipping range: the theorem is about exact data and the model whose loops are hand-written (per-chord update and implicit line regenerated), tied by correspondence and an exact reference sweep; the compiled clip_range is not reachable from Python",
                             "'err on the safe side on general (rounded) data' is not proved in a rounded model"])
